@@ -93,7 +93,7 @@ static void run_case(Ctx& c, uint64_t idx) {
     Rng& r = c.rng; Str s;
     uint64_t nd = gdegenerate_count() / 3;
     if (idx < nd) s = gdegenerate_case(idx * 3 + (c.seed % 3));
-    else { UriGenOpts o; o.auth = r.chance(3, 4); o.maxSegs = 5; s = gen_uri(r, o); }
+    else { UriGenOpts o; o.auth = r.chance(3, 4); o.maxSegs = 5; o.huge = true; s = gen_uri(r, o); }
     int opKind = (int)r.below(3) ? 1 : 0;
     unsigned mask = opKind ? (r.chance(1, 4) ? 63u : (1 + r.below(63))) : 0; if (opKind && r.chance(1, 16)) mask |= 0xFFFFFF00u;
     if (opKind && r.chance(1, 12)) { static const unsigned hi[] = {0x40u, 0x80u, 0x80000000u, 0xFFFFFFC0u, 0x100u, 0x7FFFFFC0u}; mask = r.chance(1, 2) ? hi[r.below(6)] : (1u << r.range(6, 31)); }   // "any non-zero mask": also one without a single component bit
